@@ -183,11 +183,14 @@ func (lalr *LALR1) CalcDR() {
 func (lalr *LALR1) CaclIncludeRelation(tr int) []Relation {
 	res := []Relation{}
 	sy := lalr.G.Symbols[lalr.trans[tr].sym_or_rule]
-	for index, r := range lalr.G.ProductoinRules {
+	for _, r := range lalr.G.ProductoinRules {
 		LeftSy := r.LeftPart
 		for Dot, sycheck := range r.RighPart {
 			if sy == sycheck && lalr.seqenceCanEpsilon(r.RighPart[Dot+1:]) {
-				for _, q := range lalr.fechStateNumber(index) {
+				for q := range lalr.G.LR0.LR0Closure {
+					if lalr.walk(q, r.RighPart[:Dot]) != lalr.trans[tr].q {
+						continue
+					}
 					if to_index, err := lalr.fetchTransIndex(q, int(LeftSy.ID)); err == nil {
 						res = append(res, Relation{x: tr, y: to_index})
 					}
@@ -219,7 +222,8 @@ func (lalr *LALR1) CalcLookbacks() []Relation {
 		leftPart := lalr.G.ProductoinRules[ruleIndex].LeftPart
 		for tr_2 := range lalr.DRSet {
 			SyIndex := lalr.trans[tr_2].sym_or_rule
-			if SyIndex == leftPart.ID {
+			if SyIndex == leftPart.ID &&
+				lalr.walk(lalr.trans[tr_2].q, lalr.G.ProductoinRules[ruleIndex].RighPart) == tr.q {
 				// trIndex lookback tr2
 				res = append(res, Relation{x: trIndex, y: tr_2})
 			}
